@@ -5,12 +5,16 @@ site enumerations (every atomic op, every arithmetic site, ...) keep 80% so that
 import json, glob, os
 ENUM = ("ATOM.a", "ATOM", "OVF", "PRE", "LIVE.a", "LIVE", "SURFACE", "TYPE", "UNW", "CELL.d", "CELL", "STICKY", "ORD.iii", "ORD",
         "LEAK.prim", "OWN.a", "OWN", "DONE-EVID", "DONE-SET")
+# rules that enumerate a *tolerated* construct (an adaptor method left at the trait default): fewer of them is never a loss
+NO_FLOOR = ("FWD.cover",)
 out = {}
 for f in sorted(glob.glob("/verif/evidence/C*.json")):
     d = json.load(open(f))
     fl = {}
     for rule, n in d["coverage"]["rules"]:
         if rule in ("FLOOR", "ROLES") or n == 0:
+            continue
+        if rule in NO_FLOOR:
             continue
         # 70% of what was confirmed on the reviewed tree: merging two helpers or inlining a closure (which removes a few
         # instances) is not an alarm; a rule family that collapses or matches nothing is
